@@ -15,6 +15,10 @@
          the process called os.Chdir(d); wd is what os.Getwd() reported afterwards (it must be
          d - otherwise the scenario's directory is not what the check believes, class
          "environment").  The model's current working directory follows; its table does not.
+     {"op":"LoseWd","wd":B,"lost":bool}
+         the process changed into a fresh directory of its scratch space and removed it; lost =
+         os.Getwd() fails now (it must - otherwise the platform does not lose a working directory
+         this way, class "environment"), wd = what it returned.  The model's wd becomes LOST.
      {"op":"Q","via":V,"ins":[B..] or "ix":[index into InputSeq..],"outs":[[B..]..],"lens":[n..],"panic":S?}
          a query of the paths `ins` through V (Safety, SafetyFiles, caller-json, caller-logfmt,
          caller-color), repeated many times: outs[x] are the DISTINCT results seen for
@@ -27,9 +31,9 @@
    class: the name of the known deviation class if the as-built semantics (AllDevs, or a part
    of it) explains it, "unexplained" otherwise; the orchestrator turns the classes into
    finding keys.  A result that the as-built deviations do not explain is tried against the
-   two deviations of the newer dimensions ("StaleWd": relative form computed against the start
-   directory, "StopRel": relative strings end the scan of the table) before it is called
-   unexplained.  Queries do not change the state, so checking simply continues.             *)
+   deviations of the newer dimensions ("StaleWd": relative form computed against the start
+   directory, "StopRel": relative strings end the scan of the table, "LostWdRaw": the input handed
+   back as it came in while the working directory is lost) before it is called unexplained.  Queries do not change the state, so checking simply continues.             *)
 EXTENDS Paths, Json, SequencesExt
 
 CONSTANTS TraceFile,   \* ndjson file recorded by the worker
@@ -53,7 +57,8 @@ DevClass(s, p) ==
 \* class of a result o that is NOT in the allowed set: explained by the as-built semantics (or by
 \* a part of it - a tree in which only some of the deviations were repaired) or not at all
 ClassBad(s, p, o) ==
-    IF o \in Outputs(s, p, AllDevs) \/ \E D \in SUBSET AllDevs : o \in Outputs(s, p, D)
+    IF s.wd = LOST /\ o \in Outputs(s, p, {"LostWdRaw"}) THEN "unhardened-without-working-directory"
+    ELSE IF o \in Outputs(s, p, AllDevs) \/ \E D \in SUBSET AllDevs : o \in Outputs(s, p, D)
     THEN DevClass(s, p)
     ELSE IF s.wd # Cwd /\ o \in Outputs(s, p, {"StaleWd"}) THEN "stale-working-directory"
     ELSE IF ~Abs(p) /\ o \in Outputs(s, p, {"StopRel"}) THEN "relative-path-not-hardened"
@@ -61,7 +66,7 @@ ClassBad(s, p, o) ==
 
 Classes == {"panic", "length", "environment", "privacy-flag-off-by-default", "unexplained", "empty-prefix",
             "root-prefix", "home-exposed", "prefix-without-boundary", "inner-occurrence-rewritten",
-            "stale-working-directory", "relative-path-not-hardened"}
+            "stale-working-directory", "relative-path-not-hardened", "unhardened-without-working-directory"}
 MaxEx == 8      \* examples kept per class (the count is exact)
 
 \* the queried paths of a line: given literally or as indexes into InputSeq
@@ -125,6 +130,11 @@ TNext ==
             /\ stats' = stats
             /\ bad' = AddBad(bad, IF e.wd # e.d \/ ~Abs(e.d)
                                   THEN {[line |-> i, idx |-> 0, cls |-> "environment", got |-> <<e.d, e.wd>>, expected |-> {e.d}]} ELSE {})
+       ELSE IF e.op = "LoseWd"
+       THEN /\ st' = Apply(st, e)
+            /\ stats' = stats
+            /\ bad' = AddBad(bad, IF ~e.lost
+                                  THEN {[line |-> i, idx |-> 0, cls |-> "environment", got |-> <<e.wd>>, expected |-> {LOST}]} ELSE {})
        ELSE st' = Apply(st, e) /\ UNCHANGED <<bad, stats>>
 
 TSpec == TInit /\ [][TNext]_<<st, i, bad, stats>>
